@@ -175,12 +175,6 @@ func renderLine(v string, rnd *rand.Rand) string {
 func renderHead(rl string, hs []string, path string, rnd *rand.Rand) string {
 	var s string
 	switch rl {
-	case "post11":
-		s = "POST " + path + " HTTP/1.1\r\n"
-	case "get11":
-		s = "GET " + path + " HTTP/1.1\r\n"
-	case "post10":
-		s = "POST " + path + " HTTP/1.0\r\n"
 	case "lead":
 		s = "\r\nPOST " + path + " HTTP/1.1\r\n"
 	case "rllf":
@@ -188,7 +182,16 @@ func renderHead(rl string, hs []string, path string, rnd *rand.Rand) string {
 	case "bad":
 		s = "POST " + path + "\r\n"
 	default:
-		panic("unknown request-line variant " + rl)
+		// "<method>11" / "<method>10": the method is part of the alphabet (Parse.tla MethodRL)
+		if len(rl) < 3 || (rl[len(rl)-2:] != "11" && rl[len(rl)-2:] != "10") {
+			panic("unknown request-line variant " + rl)
+		}
+		method := strings.ToUpper(rl[:len(rl)-2])
+		target := path
+		if method == "CONNECT" {
+			target = "h:443"
+		}
+		s = method + " " + target + " HTTP/1." + rl[len(rl)-1:] + "\r\n"
 	}
 	s += "Host: h\r\n"
 	for _, h := range hs {
@@ -440,7 +443,7 @@ func parseMain() {
 			if second {
 				if kind, det := judgeMsg(c.P2, c.O2, o2, stream, start2+h2, c.HS2); kind != "" {
 					fail(2, kind, c.P2.Why, shape2, "second pipelined message: "+det)
-				} else if o2.Accepted && o2.URI != "/2" {
+				} else if o2.Accepted && o2.URI != "/2" && o2.URI != "h:443" {
 					fail(2, "wrong-boundary", c.P.Why, shape1, "the request after the first body is not the second message: "+o2.URI)
 				}
 			}
